@@ -7691,6 +7691,59 @@ def main():
         status["decode"] = f"translator cannot read {e}"
     except Exception as e:  # fail closed on anything the parser did not anticipate
         status["decode"] = f"translator cannot read decode.rs/rice.rs/datatype.rs: internal error {type(e).__name__}: {e}"
+    try:  # hook for sink (tools/translate_sink.py: bitsink.rs -> Gen/Sink.lean); no dependency on another part's output
+        import translate_sink
+        write("Sink.lean", translate_sink.emit_sink(sys.modules[__name__], status))
+        status["sink"] = "ok"
+    except Unreadable as e:
+        status["sink"] = f"translator cannot read {e}"
+    except Exception as e:  # fail closed on anything the parser did not anticipate
+        status["sink"] = f"translator cannot read bitsink.rs: internal error {type(e).__name__}: {e}"
+    try:  # hook for driver (tools/translate_driver.py: coding.rs stream driver, datatype.rs Stream / StreamInfo -> Gen/Driver.lean)
+        for dep in ("constants", "config", "headers", "writer", "verify", "source", "coding"):
+            if status[dep] != "ok":
+                fail(f"coding.rs: part `{dep}` failed (Gen/Driver.lean imports its output)")
+        import translate_driver
+        write("Driver.lean", translate_driver.emit_driver(sys.modules[__name__], (order, consts, values), cfg))
+        status["driver"] = "ok"
+    except Unreadable as e:
+        status["driver"] = f"translator cannot read {e}"
+    except Exception as e:  # fail closed on anything the parser did not anticipate
+        status["driver"] = f"translator cannot read coding.rs/datatype.rs: internal error {type(e).__name__}: {e}"
+    try:  # hook for par (tools/translate_par.py: the thread protocol of par.rs -> Gen/Par.lean)
+        if status["constants"] != "ok":
+            fail("par.rs: part `constants` failed (Gen/Par.lean imports Gen/Constants.lean)")
+        if values is None or not any(str(k).endswith("FRAMEBUF_MULTIPLICITY") for k in values):
+            fail("par.rs: constant par::FRAMEBUF_MULTIPLICITY not found by part `constants`")
+        import translate_par
+        write("Par.lean", translate_par.emit_par(sys.modules[__name__], (order, consts, values)))
+        status["par"] = "ok"
+    except Unreadable as e:
+        status["par"] = f"translator cannot read {e}"
+    except Exception as e:  # fail closed on anything the parser did not anticipate
+        status["par"] = f"translator cannot read par.rs: internal error {type(e).__name__}: {e}"
+    try:  # hook for lpc (tools/translate_lpc.py: lpc.rs / arrayutils.rs / coding.rs / datatype.rs -> Gen/Lpc.lean)
+        import translate_lpc
+        for dep in ("constants", "source"):
+            if status[dep] != "ok":
+                fail(f"lpc.rs: part `{dep}` failed (Gen/Lpc.lean imports its output)")
+        write("Lpc.lean", translate_lpc.emit_lpc(sys.modules[__name__], status))
+        status["lpc"] = "ok"
+    except Unreadable as e:
+        status["lpc"] = f"translator cannot read {e}"
+    except Exception as e:  # fail closed on anything the parser did not anticipate
+        status["lpc"] = f"translator cannot read lpc.rs/arrayutils.rs/coding.rs/datatype.rs: internal error {type(e).__name__}: {e}"
+    try:  # hook for rice (tools/translate_rice.py: rice.rs / arrayutils.rs -> Gen/Rice.lean)
+        for dep in ("constants", "source", "decode"):
+            if status[dep] != "ok":
+                fail(f"rice.rs: part `{dep}` failed (Gen/Rice.lean imports its output)")
+        import translate_rice
+        write("Rice.lean", translate_rice.emit_rice(sys.modules[__name__], status, (order, consts, values)))
+        status["rice"] = "ok"
+    except Unreadable as e:
+        status["rice"] = f"translator cannot read {e}"
+    except Exception as e:  # fail closed on anything the parser did not anticipate
+        status["rice"] = f"translator cannot read rice.rs/arrayutils.rs: internal error {type(e).__name__}: {e}"
     os.makedirs(os.path.join(ROOT, ".cache"), exist_ok=True)
     json.dump(status, open(os.path.join(ROOT, ".cache", "translate_status.json"), "w"), indent=1)
     bad = [v for v in status.values() if v != "ok"]
